@@ -1,6 +1,7 @@
 package refs
 
 import (
+	"github.com/google/uuid"
 	"database/sql"
 	"errors"
 	"syscall"
@@ -60,7 +61,7 @@ type State struct {
 // Abstract is the projection of a ref store: name -> value, name -> log (oldest first).
 type Abstract struct {
 	Refs map[string]int      `json:"refs"`
-	Logs map[string][][2]int `json:"logs"`
+	Logs map[string][][3]int `json:"logs"`
 }
 
 type Ret struct {
@@ -88,7 +89,7 @@ type RealRet struct {
 	Val   int            `json:"val,omitempty"`
 	Names []string       `json:"names,omitempty"`
 	Vals  map[string]int `json:"vals,omitempty"`
-	Log   [][2]int       `json:"log,omitempty"`
+	Log   [][3]int       `json:"log,omitempty"`
 	Err   string         `json:"err,omitempty"`
 }
 
@@ -99,9 +100,56 @@ func errStr(err error) string {
 	return err.Error()
 }
 
-// ReadLog returns the log of name newest first as (old,new) pairs; ok=false when
+// The harness writes two kinds of log entries (RefsGen / TraceRefs: MetaOf(v) = v % 2):
+//   meta 0  a plain entry: author "verif", action "commit", message "m", no transaction;
+//   meta 1  an entry written by a transaction: the same with message "tx" and the id of a transaction
+//           of the store.
+// Whatever else is read back (a field lost or changed by a copy, a rename, a bulk rename) is meta 9: no
+// behaviour of the specification has such an entry ("rename / copy carry the log along").
+var fixedTx = uuid.MustParse("7a1f0c3e-5b2d-4e6f-8a9b-0c1d2e3f4a5b")
+
+// noTx: the store under test has no transactions (the file store: "not implemented", and its log format
+// has no field for the id); the two kinds of entries then differ by their message only.
+func noTx(s ref.Store) bool {
+	_, fs := s.(*reffs.Store)
+	return fs
+}
+
+func metaOf(rl *ref.Reflog, noTx bool) int {
+	if rl.AuthorName != "verif" || rl.AuthorEmail != "verif@example.invalid" || rl.Action != "commit" {
+		return 9
+	}
+	switch {
+	case rl.Txid == nil && rl.Message == "m":
+		return 0
+	case rl.Txid != nil && *rl.Txid == fixedTx && rl.Message == "tx":
+		return 1
+	case noTx && rl.Txid == nil && rl.Message == "tx":
+		return 1
+	}
+	return 9
+}
+
+// saveLogged is the logged set of the harness: an odd value is written "by a transaction".
+func saveLogged(s ref.Store, name string, v int) error {
+	if v%2 == 0 {
+		return ref.SaveRef(s, name, Sum(v), "verif", "verif@example.invalid", "commit", "m", nil)
+	}
+	if noTx(s) {
+		return ref.SaveRef(s, name, Sum(v), "verif", "verif@example.invalid", "commit", "tx", nil)
+	}
+	if _, err := s.GetTransaction(fixedTx); err != nil {
+		if _, err := s.NewTransaction(&ref.Transaction{ID: fixedTx, Status: ref.TSInProgress, Begin: time.Now()}); err != nil {
+			return fmt.Errorf("harness: cannot create the transaction: %v", err)
+		}
+	}
+	id := fixedTx
+	return ref.SaveRef(s, name, Sum(v), "verif", "verif@example.invalid", "commit", "tx", &id)
+}
+
+// ReadLog returns the log of name newest first as (old, new, meta) triples; ok=false when
 // the store says there is none.
-func ReadLog(s ref.Store, name string) (log [][2]int, ok bool, err error) {
+func ReadLog(s ref.Store, name string) (log [][3]int, ok bool, err error) {
 	r, err := s.LogReader(name)
 	if err != nil {
 		return nil, false, nil
@@ -119,7 +167,7 @@ func ReadLog(s ref.Store, name string) (log [][2]int, ok bool, err error) {
 			}
 			return nil, false, err
 		}
-		log = append(log, [2]int{Val(rl.OldOID), Val(rl.NewOID)})
+		log = append(log, [3]int{Val(rl.OldOID), Val(rl.NewOID), metaOf(rl, noTx(s))})
 	}
 	return log, true, nil
 }
@@ -137,7 +185,7 @@ func Apply(s ref.Store, o Op) RealRet {
 		err := s.Set(o.N, Sum(o.V))
 		return RealRet{Ok: err == nil, Err: errStr(err)}
 	case "setlog":
-		err := ref.SaveRef(s, o.N, Sum(o.V), "verif", "verif@example.invalid", "commit", "m", nil)
+		err := saveLogged(s, o.N, o.V)
 		if err == nil && curDB != nil {
 			// a clock that was set back, entries written in other time zones: the timestamp the store keeps
 			// with the entry just written is moved to an EARLIER instant than all before it (logs read
@@ -160,7 +208,7 @@ func Apply(s ref.Store, o Op) RealRet {
 		if _, err := curDB.Exec(`CREATE TRIGGER verif_fail BEFORE INSERT ON reflogs BEGIN SELECT RAISE(ABORT, 'verif-injected-failure'); END`); err != nil {
 			return RealRet{Err: "cannot install the failing trigger: " + err.Error()}
 		}
-		err := ref.SaveRef(s, o.N, Sum(o.V), "verif", "verif@example.invalid", "commit", "m", nil)
+		err := saveLogged(s, o.N, o.V)
 		if _, derr := curDB.Exec(`DROP TRIGGER verif_fail`); derr != nil {
 			return RealRet{Err: "cannot remove the failing trigger: " + derr.Error()}
 		}
@@ -223,7 +271,7 @@ func Apply(s ref.Store, o Op) RealRet {
 
 // Observe projects the whole store on the universe.
 func Observe(s ref.Store, universe []string) (*Abstract, error) {
-	a := &Abstract{Refs: map[string]int{}, Logs: map[string][][2]int{}}
+	a := &Abstract{Refs: map[string]int{}, Logs: map[string][][3]int{}}
 	m, err := s.Filter(nil, nil)
 	if err != nil {
 		return nil, err
@@ -252,7 +300,7 @@ func Observe(s ref.Store, universe []string) (*Abstract, error) {
 		if err != nil {
 			// the store cannot read its own log back: that is an observation (no behaviour of the
 			// specification has such a log), not a failure of the harness
-			a.Logs[n] = [][2]int{{-1, -1}}
+			a.Logs[n] = [][3]int{{-1, -1, 9}}
 			continue
 		}
 		if ok && len(l) > 0 {
@@ -267,7 +315,7 @@ func Observe(s ref.Store, universe []string) (*Abstract, error) {
 }
 
 func expectedState(sc *Scenario) (*Abstract, error) {
-	a := &Abstract{Refs: map[string]int{}, Logs: map[string][][2]int{}}
+	a := &Abstract{Refs: map[string]int{}, Logs: map[string][][3]int{}}
 	for _, p := range sc.Post.Refs {
 		a.Refs[p[0].(string)] = int(p[1].(float64))
 	}
@@ -275,7 +323,7 @@ func expectedState(sc *Scenario) (*Abstract, error) {
 		n := p[0].(string)
 		for _, e := range p[1].([]interface{}) {
 			t := e.([]interface{})
-			a.Logs[n] = append(a.Logs[n], [2]int{int(t[0].(float64)), int(t[1].(float64))})
+			a.Logs[n] = append(a.Logs[n], [3]int{int(t[0].(float64)), int(t[1].(float64)), int(t[2].(float64))})
 		}
 	}
 	return a, nil
@@ -302,7 +350,7 @@ func compareRet(o Op, exp Ret, got RealRet) string {
 			return "log"
 		}
 		for i := range exp.Log {
-			if exp.Log[i][0] != got.Log[i][0] || exp.Log[i][1] != got.Log[i][1] {
+			if exp.Log[i] != got.Log[i] {
 				return "log"
 			}
 		}
